@@ -160,6 +160,32 @@ def _safe_div(a, b):
     return a / b
 
 
+def _num_ite(t, depth=0):
+    """True if t is a (nested) ite whose leaves are all numerals (e.g. the sign function)."""
+    if z3.is_rational_value(t):
+        return depth > 0
+    if z3.is_app_of(t, z3.Z3_OP_ITE) and depth < 4:
+        return _num_ite(t.arg(1), depth + 1) and _num_ite(t.arg(2), depth + 1)
+    return False
+
+
+def _distribute(ite, other):
+    """(nested numeral ite) * other  ->  ite with the product pushed to the leaves (keeps formulas linear)."""
+    if z3.is_rational_value(ite):
+        if ite.numerator_as_long() == 0:
+            return z3.RealVal(0)
+        return ite * other
+    return z3.If(ite.arg(0), _distribute(ite.arg(1), other), _distribute(ite.arg(2), other))
+
+
+def _mul_terms(a, b):
+    if _num_ite(a) and not z3.is_rational_value(b):
+        return _distribute(a, b)
+    if _num_ite(b) and not z3.is_rational_value(a):
+        return _distribute(b, a)
+    return a * b
+
+
 class SymReal:
     __slots__ = ("t", "sq")
 
@@ -209,14 +235,14 @@ class SymReal:
             raise NonFinite("inf * symbolic")
         if o is s and s.sq is not None:
             return s.sq
-        return SymReal(s.t * R(o))
+        return SymReal(_mul_terms(s.t, R(o)))
 
     def __rmul__(s, o):
         if _isnd(o) or isinstance(o, Lifted):
             return NotImplemented
         if _isinf(o):
             raise NonFinite("inf * symbolic")
-        return SymReal(R(o) * s.t)
+        return SymReal(_mul_terms(R(o), s.t))
 
     def __truediv__(s, o):
         if _isnd(o) or isinstance(o, Lifted):
@@ -415,6 +441,7 @@ class Stats:
 
 
 GLOBAL_STATS = Stats()
+_PROBE_LRA = z3.Probe('is-qflra')
 
 
 def _has_nonlinear_hint(assertions):
@@ -429,12 +456,31 @@ def solve(assertions, timeout_ms=None, stats=None, want_model=True):
     timeout_ms = timeout_ms or QUERY_TIMEOUT_MS
     t0 = time.time()
     res, model = "unknown", None
-    mk_list = (
-        lambda: z3.Tactic("qfnra-nlsat").solver(),
-        lambda: z3.Solver(),
-    )
-    budgets = (timeout_ms, timeout_ms)
-    for mk, to in zip(mk_list, budgets):
+    def mk_nl():
+        return z3.Tactic("qfnra-nlsat").solver()
+
+    def mk_df():
+        return z3.Solver()
+    # escalating portfolio: nlsat is instant on most NRA queries but can stall on large ite-heavy
+    # *linear* ones where the default solver (simplex) answers at once -- and vice versa.
+    linear = False
+    assertions = [z3.simplify(a) for a in assertions]
+    try:
+        g = z3.Goal()
+        for a in assertions:
+            g.add(a)
+        linear = _PROBE_LRA(g) > 0.5
+    except z3.Z3Exception:
+        pass
+    if linear:
+        plan = [(mk_df, timeout_ms)]
+    else:
+        plan = [(mk_nl, min(1500, timeout_ms)), (mk_df, min(4000, timeout_ms))]
+        if timeout_ms > 1500:
+            plan.append((mk_nl, timeout_ms))
+        if timeout_ms > 4000:
+            plan.append((mk_df, timeout_ms))
+    for mk, to in plan:
         s = mk()
         s.set("timeout", int(to))
         for a in assertions:
